@@ -468,6 +468,16 @@ impl ModuleDesc {
           out.push_str(&format!("// @deno-types=\"{}\"\n", t));
         }
       }
+      if it.types_pragma.is_none()
+        && i % 5 == 2
+        && !it.form.is_comment_form()
+        && !it.form.is_dynamic()
+      {
+        // a pragma that is not the last leading comment of the statement
+        // does not apply
+        out.push_str("// @deno-types=\"./ghost.d.ts\"\n");
+        out.push_str("// (not the last leading comment: ignored)\n");
+      }
       let with = match &it.attr {
         Some(a) => format!(" with {{ type: \"{}\" }}", a),
         None => String::new(),
